@@ -59,3 +59,32 @@ Proof.
   - destruct (P_restore W W' D (numb p) p order HW HD HL Ho) as [ptrs [H _]]. exists ptrs. rewrite H, (HR p). reflexivity.
   - apply P_sync_idempotent; [eapply P_restored_consistent; eauto|]. rewrite (HR p). simpl. exact Ho2.
 Qed.
+
+(* a consistent world is determined by its index sets: a rebuild after sync (which yields a consistent world, C04) on the synced
+   sets returns exactly the synced remote lists -- what the harness observes with hist=1 *)
+Lemma pubcopy_same_isets W1 W2 : (forall p, c13_iset (c13_proc_of W1 p) = c13_iset (c13_proc_of W2 p)) ->
+  forall p g a, pubcopy W1 p g a <-> pubcopy W2 p g a.
+Proof. intros H p g a. unfold pubcopy. rewrite (H p). reflexivity. Qed.
+
+Lemma P_consistent_unique W1 W2 : consistent W1 -> consistent W2 ->
+  (forall p, c13_iset (c13_proc_of W1 p) = c13_iset (c13_proc_of W2 p)) ->
+  forall p, c13_ri (c13_proc_of W1 p) = c13_ri (c13_proc_of W2 p).
+Proof.
+  intros H1 H2 Hi p.
+  assert (Hent : forall q e, In_rmap (c13_ri (c13_proc_of W1 p)) q e <-> In_rmap (c13_ri (c13_proc_of W2 p)) q e).
+  { intros q [[g la] ra]. rewrite (cs_entries W1 H1), (cs_entries W2 H2), !(pubcopy_same_isets W1 W2 Hi). reflexivity. }
+  assert (Hkeys : forall Wa Wb, consistent Wa -> consistent Wb ->
+            (forall q e, In_rmap (c13_ri (c13_proc_of Wa p)) q e -> In_rmap (c13_ri (c13_proc_of Wb p)) q e) ->
+            forall q, In q (map fst (c13_ri (c13_proc_of Wa p))) -> In q (map fst (c13_ri (c13_proc_of Wb p)))).
+  { intros Wa Wb Ha Hb He q Hq. apply in_map_iff in Hq. destruct Hq as [[q' l] [E Hl]]. simpl in E. subst q'.
+    destruct (cs_lists Wa Ha p q l Hl) as [_ Hne]. destruct l as [|e l']; [congruence|].
+    destruct (He q e (ex_intro _ (e :: l') (conj Hl (or_introl eq_refl)))) as [l2 [G1 _]].
+    apply in_map_iff. exists (q, l2); auto. }
+  apply rmap_ext.
+  - apply (cs_map W1 H1).
+  - apply (cs_map W2 H2).
+  - intros q. split; [apply (Hkeys W1 W2 H1 H2) | apply (Hkeys W2 W1 H2 H1)]; intros q' e; apply Hent.
+  - exact Hent.
+  - intros q l Hl. apply lglob_strict. apply (cs_lists W1 H1 p q l Hl).
+  - intros q l Hl. apply lglob_strict. apply (cs_lists W2 H2 p q l Hl).
+Qed.
